@@ -6,11 +6,11 @@ func init() {
 	registerProp(&Property{
 		ID: "C01", Kind: "necessary structural clauses",
 		Tech:  "effect summaries + CFG/SSA lints (iterator invalidation, shift bounds, normaliser order, recursion guards, iteration caps, inverse pairs)",
-		Rules: []string{"LANG-0", "ITER-1", "SHIFT-1", "ORD-4", "REC-1", "PROG-1", "CAP-1", "EFF-2", "ORD-2", "POST-1"},
+		Rules: []string{"LANG-0", "ITER-1", "SHIFT-1", "ORD-4", "REC-1", "PROG-1", "CAP-1", "EFF-2", "ORD-2", "POST-1", "ACYC-1"},
 		Explanation: "Panic-freedom and termination of network simplex, weighted median, the compaction algorithms, the funnel and the spline fitter quantify over run-time values; no sound bound is in reach, so the check decides necessary clauses that are visible in the shape of the code: " +
 			"ITER-1 no loop removes the element it is visiting from the adjacency/edge list it iterates (skipped edges left the graph cyclic -> 'still cyclic' panic); SHIFT-1 no unbounded shift (layer masks collapsed at 64 layers -> matrix index panic); " +
 			"ORD-4 layers stay >= 0 after normalisation (negative layers index the layer slice); REC-1 every recursive traversal has a mark-and-test guard or a reviewed termination argument; PROG-1 the flag-guarded fix-point of the default positioner repeats only after strictly increasing a coordinate; CAP-1 the two documented iteration caps exist and depend on their options; " +
-			"EFF-2 + ORD-2 self-loops are out of all three lists while the pipeline runs and back afterwards, and every phase runs on a connected component in phase order; POST-1 the layering phase builds the layer table on every path to a normal return (later phases index it unconditionally, also for one-node components). " +
+			"EFF-2 + ORD-2 self-loops are out of all three lists while the pipeline runs and back afterwards, and every phase runs on a connected component in phase order; ACYC-1 the acyclicity test that lets phase 1 return early starts a search from every node (a missed cycle makes layering and positioning recurse for ever); POST-1 the layering phase builds the layer table on every path to a normal return (later phases index it unconditionally, also for one-node components). " +
 			"Not decided: explicit panic sites guarded by run-time preconditions, index/nil safety in general, termination of feasibleTree, transpose, placeBlock, the funnel loops and the predecessor walk in geom.Shortest, memory budgets.",
 		Assumptions: []string{"clauses are necessary, not sufficient, for the property", "REC-1's reviewed table (5 functions) is correct"},
 	})
@@ -26,7 +26,7 @@ func init() {
 	registerProp(&Property{
 		ID: "C03", Kind: "necessary structural clauses (band clause sufficient with AFF-5)",
 		Tech:  "symbolic affine execution of the Y assignment, sibling-agreement on positioners, ownership table, reversal-guard dominance, running-extremum lint",
-		Rules: []string{"AFF-5", "EFF-3", "OWN-1", "PAIR-2", "EFF-1", "EFF-2", "ITER-1", "ORD-5", "AGG-1", "AFF-8", "ORD-4"},
+		Rules: []string{"AFF-5", "EFF-3", "OWN-1", "PAIR-2", "EFF-1", "EFF-2", "ITER-1", "ORD-5", "ACYC-1", "AGG-1", "AFF-8", "ORD-4"},
 		Explanation: "AFF-5 (all nodes of a layer get one Y; the next band starts layer.H + LayerSpacing lower) and EFF-3 (every positioner makes layer.H the max node height) give the band clause for every input. OWN-1: Layer only changes in phase 2, so bands are the layering; PAIR-2 + EFF-1 + OWN-1: ArrowHeadStart == IsReversed, toggled only by Reverse; " +
 			"EFF-2 + ITER-1 the un-reverse pass visits every edge of g.Edges and flips exactly the flagged ones (a pass that iterates a list Reverse removes from skips edges: flagged but still downward); ORD-5 acyclic inputs are never reversed; AGG-1/AFF-8 longest-path layers are computed from the final maximum; ORD-4 layers stay >= 0. Not decided: feasibility (span >= 1) of network simplex through tree construction, pivots and balancing.",
 		Assumptions: []string{"floating-point sums are exact for the band clause up to rounding"},
@@ -68,9 +68,9 @@ func init() {
 	registerProp(&Property{
 		ID: "C08", Kind: "sufficient static argument (parametricity)",
 		Tech:  "inter-procedural, field-based taint analysis over SSA (node identifiers as sources, everything but copying as sink)",
-		Rules: []string{"LANG-0", "ID-1"},
+		Rules: []string{"LANG-0", "ID-1", "ORD-3"},
 		Explanation: "If, after Populate's de-duplication map (which only tests equality of input strings and is never ranged), an ID value is only copied - into another ID field, into a log string, or used to index the caller's own size map - then no control decision, key or order depends on it, and the layout is equivariant under every injective renaming, helper-looking names included. " +
-			"ID-1 taints every load of an ID field and every string read from the edge slice, propagates through phi, concatenation, boxing, calls/returns, closures, cells and fields, and reports any use other than the enumerated copies. Not decided: nothing beyond the trusted base.",
+			"ID-1 taints every load of an ID field and every string read from the edge slice, propagates through phi, concatenation, boxing, calls/returns, closures, cells and fields, and reports any use other than the enumerated copies. ORD-3 closes the one gap of that argument: the look-up in the caller's size map is keyed by Node.ID, which later also holds names minted by the library (\"V1\", \"NE0\"); the size functions must therefore run in Layout before the component split and the pipeline, while every node still carries a caller-given name. Not decided: nothing beyond the trusted base.",
 		Assumptions: []string{"helper IDs built by the pipeline (\"V<n>\", \"NE<i>\") are themselves only copied (checked: they are stored into Node.ID and flow like any other ID)"},
 	})
 	registerProp(&Property{
@@ -91,11 +91,11 @@ func init() {
 		Assumptions: []string{"clauses are necessary, not sufficient"},
 	})
 	registerProp(&Property{
-		ID: "C11", Kind: "sufficient modulo traversal completeness",
+		ID: "C11", Kind: "sufficient modulo termination of the traversal",
 		Tech:  "symbolic recurrence extraction (height = max(1, child + Delta), Layer = final max - height) + running-extremum lint + recursion table",
 		Rules: []string{"AFF-8", "AGG-1", "REC-1"},
 		Explanation: "AFF-8: the height accumulator starts at the constant 1 and is updated as max(acc, child + Edge.Delta) over out-edges, and Node.Layer is stored as L - height with L the final value of the max-reduction over all heights (read after the traversal loop); AGG-1: no value derived from the still-growing maximum is stored during the traversal. " +
-			"Together these are the specification of longest-path layering; what remains is that the memoised traversal visits every node (REC-1 table entry). Not decided: that the drawn bands are these layers (C03's band clause) and the orientation it layers (C14's rules).",
+			"AFF-8 also decides that a traversal is started from every node of the graph (a full, never-left-early loop over the node list or a same-length copy) and that only self-loops are left out of the maximum. Together these are the specification of longest-path layering; what remains is termination of the memoised traversal (REC-1 table entry: acyclicity after phase 1). Not decided: that the drawn bands are these layers (C03's band clause) and the orientation it layers (C14's rules).",
 		Assumptions: []string{"the graph is acyclic after phase 1"},
 	})
 	registerProp(&Property{
